@@ -198,6 +198,7 @@ def build_world(script):
     w = World(script)
     del NO_EVENTS[:]                  # (an engine that appended to it must not leak into the next case)
     w.keep = []
+    w.sim_ref = None                  # the Simulation, when the family runs one (handlers may call sim.schedule())
     sim_clock = [None]
     w.sim_clock = sim_clock
     prerun = [True]
@@ -270,6 +271,11 @@ def build_world(script):
                         out.append(mk_event(self.now.nanoseconds, a[1]))
                     else:
                         do_eff(a[1])
+                if len(out) >= 2 and w.sim_ref is not None and (self.idx + t) % 3 == 0:
+                    # the event created FIRST is injected with sim.schedule() from inside the handler, after the
+                    # others were created; the rest is returned: creation order still decides ties
+                    w.sim_ref.schedule(out[0])
+                    return out[1:]
                 if len(out) == 1 and beh[1] and beh[1][0][0] == "emit" and len(beh[1]) == 1:
                     return out[0]            # single Event return form
                 if not out and self.idx % 2 == 0:
@@ -379,6 +385,7 @@ def _run_script_once(script, mode, control_script, wall):
         from happysimulator.instrumentation.recorder import InMemoryTraceRecorder
         kwargs["trace_recorder"] = InMemoryTraceRecorder()
     sim = Simulation(entities=list(w.entities), **horizon_kwargs(script), **kwargs)
+    w.sim_ref = sim
     schedule_pre(sim, w, script)
     pops = []
     w.sim_clock[0] = sim._clock
@@ -558,6 +565,7 @@ def _run_session_once(script, cmds, hooks, wall):
 
     w = build_world(script)
     sim = Simulation(entities=list(w.entities), **horizon_kwargs(script))
+    w.sim_ref = sim
     schedule_pre(sim, w, script)
     pops = []
     w.sim_clock[0] = sim._clock
